@@ -182,6 +182,9 @@ func (p c03) Run(w *mon.Worker, idx int) mon.Result {
 	if idx%30 == 11 {
 		return c03NeutralCase(r, idx)
 	}
+	if idx%60 == 23 {
+		return c03TypedKeysCase(r, idx)
+	}
 	pr := gen.Default()
 	pr.NoBigInt, pr.SmallInts = true, true
 	pr.MaxDepth = 2 + r.IntN(3)
